@@ -235,23 +235,22 @@ func (in *Interp) hashUF(tag string, data []Value, outBytes int) Array {
 		for _, b := range data[1:] {
 			acc = in.tt.Concat(acc, b.(*Term))
 		}
-		res = in.tt.App(name, BV(8*outBytes), acc)
-		if in.path != nil {
-			// pairwise injectivity over applications on this path (collision freedom assumption)
-			for _, prev := range in.hashApps[name] {
-				if prev.arg != acc {
-					in.addPC(in.tt.Implies(in.tt.Eq(prev.res, res), in.tt.Eq(prev.arg, acc)))
+		// A hash application is a fresh digest variable per distinct argument term; congruence and
+		// collision freedom against the other applications of the same function on this path are added
+		// as facts: args equal <=> digests equal.  (No UF over multi-thousand-bit vectors: solvers choke.)
+		for _, prev := range in.hashApps[name] {
+			if prev.arg == acc {
+				res = prev.res
+			}
+		}
+		if res == nil {
+			res = in.tt.Var(fmt.Sprintf("%s#%d", name, len(in.hashApps[name])), BV(8*outBytes))
+			if in.path != nil {
+				for _, prev := range in.hashApps[name] {
+					in.addPC(in.tt.Eq(in.tt.Eq(prev.arg, acc), in.tt.Eq(prev.res, res)))
 				}
 			}
-			seen := false
-			for _, prev := range in.hashApps[name] {
-				if prev.arg == acc {
-					seen = true
-				}
-			}
-			if !seen {
-				in.hashApps[name] = append(in.hashApps[name], hashApp{acc, res})
-			}
+			in.hashApps[name] = append(in.hashApps[name], hashApp{acc, res})
 		}
 	}
 	for i := 0; i < outBytes; i++ {
@@ -598,12 +597,7 @@ func init() {
 			if x.IsConst() {
 				return tt.BVI(int64(x.val.BitLen()), 64)
 			}
-			// ite chain up to 520 bits (covers 2^512 products); beyond that a huge sentinel
-			r := tt.BVI(1<<20, 64)
-			for k := 520; k >= 0; k-- {
-				r = tt.Ite(tt.ILt(x, tt.IntConst(pow2(k))), tt.BVI(int64(k), 64), r)
-			}
-			return r
+			return BitLenV{x}
 		},
 		"(*math/big.Int).SetBytes": func(in *Interp, fr *frame, fn *ssa.Function, a []Value) Value {
 			return in.bigSet(a[0], in.bytesToNat(sliceOf(in, a[1])))
